@@ -23,8 +23,8 @@ of the `i`-th input record is exactly the struct whose `j`-th field is slot `i` 
 
 Covers every data type `build_builder` accepts, at any nesting — including Utf8View / BinaryView and
 `Dictionary(integer, Utf8 | LargeUtf8)` — and every presentation of a value.  Hypotheses, all explicit:
-  `hmap`     Map entries have exactly two children (finding `Props.C03.map_three_children_not_wf`)
-  `hschema`  no `FixedSizeBinary(0)` (known finding), dictionary keys of an integer type
+  `hschema`  no `FixedSizeBinary(0)` (known finding).  (Map entries with exactly two children and integer dictionary
+             keys are no longer hypotheses: `build_builder` refuses everything else — repo fixes 095456f, 7359431.)
   `hcov`     `coveredF`: no dictionary whose VALUE type is not Utf8/LargeUtf8 (`build_builder` accepts any, e.g.
              `Dictionary(Int8, Date32)`; R1 and the physical half cover those, the content statement R2 does not)
   `hsafe`    `Safe` (schema: no dictionary with non-nullable keys below a nullable struct / fixed-size list, no
@@ -33,7 +33,7 @@ Covers every data type `build_builder` accepts, at any nesting — including Utf
 (No size hypothesis: the view builders refuse lengths and buffer offsets beyond `i32::MAX`, so a descriptor never
 truncates — `viewPushValue_ok`, `view_value_exact`, `WFB_small`.) -/
 theorem C01_build_decode (ext : Ext) (fields : List Field) (rows : List SVal) (arrs : List Arr)
-    (hmap : ∀ f ∈ fields, Lemmas.C03.Map2F f) (hschema : ∀ f ∈ fields, Lemmas.C03.SchemaOKF f)
+    (hschema : ∀ f ∈ fields, Lemmas.C03.SchemaOKF f)
     (hcov : fields.all Build.coveredF = true)
     (hsafe : ∀ root0, newRoot fields = .ok root0 → Safe root0)
     (hraw : ∀ x ∈ rows, Build.noRaw x = true)
@@ -69,7 +69,7 @@ theorem C01_build_decode (ext : Ext) (fields : List Field) (rows : List SVal) (a
   obtain ⟨hw, _, _, _⟩ := runRows_rows ext fields rows root0 root h0 hs0 hrun
   obtain ⟨hall, hcols, p, fs, cached, next, seen, rfl, hdec⟩ :=
     runRows_interp ext fields rows root0 root hcov h0 hs0 hraw hrun
-  have hfacts := Props.C03.root_facts ext fields rows _ hmap hschema (Build.push_takeRest ext) hw
+  have hfacts := Props.C03.root_facts ext fields rows _ hschema (Build.push_takeRest ext) hw
     (Lemmas.C03.WFB_StrictDict _ hw) hrun
   simp only [buildArrays, bind, Except.bind] at hba
   cases hfin : finishFields ext fs with
@@ -145,9 +145,8 @@ example : ∀ arrs, toMarrow {} exFields exRows = .ok arrs → arrs.length = exF
       ∀ (i : Nat) (hi : i < exRows.length), interpRow {} exFields exRows[i] =
         .ok (.struct (LFields.ofList (cols.map fun c => (c.1, c.2.getD i .null)))) := by
   intro arrs h
-  refine C01_build_decode {} exFields exRows arrs ?_ ?_ (by decide) ?_ (by decide) h
-  · simp [exFields, Lemmas.C03.Map2F, Lemmas.C03.Map2]
-  · simp [exFields, Lemmas.C03.SchemaOKF, Lemmas.C03.SchemaOK, Lemmas.C03.isIntDT]
+  refine C01_build_decode {} exFields exRows arrs ?_ (by decide) ?_ (by decide) h
+  · simp [exFields, Lemmas.C03.SchemaOKF, Lemmas.C03.SchemaOK]
   · intro root0 h0
     rw [show newRoot exFields = .ok (.struct "$" 0 none
       (.cons (.bytesView "$.v" .utf8View (some []) [] []) ⟨"v", true, []⟩
